@@ -524,12 +524,19 @@ def classify(pb, group):
     if d >= 900000:
         r = d - 900000
         if r == 3:
-            return "known", "C10-root-noop-account-write", "root differs with the set of written account records"
+            return "known", "C10-root-noop-account-write", "root depends on an account write that changed nothing"
         if r == 4:
             return "known", "C10-kv-concat-no-length-prefix", "different change sets with the same key/value concatenation share a root"
         if r == 1:
             return "violation", None, "same previous root and same change set but different state roots"
         return "violation", None, "different (previous root, change set) share a state root"
+    if 700000 <= d < 900000:
+        d -= 700000
+        hi, step = d // 10000, d % 10000
+        ops = group[hi][:step + 1] if hi < len(group) else []
+        if any(o[0] == "setcode" and o[2] is None for o in ops):
+            return "known", "C13-setcode-nil", "SetCode(nil) leaves code_hash = keccak(empty) next to the old code"
+        return "violation", None, "committed code hash is not the Keccak of the stored code (raw dump at step %d of history %d)" % (step, hi)
     strict = d >= 500000
     if strict:
         d -= 500000
@@ -646,4 +653,113 @@ def sprinkle_bad_ops(r, ops):
         if r.random() < 0.08:
             out.append(("raw", r.choice(bad)))
         out.append(o)
+    return out
+
+
+
+# ---------------------------------------------------------------- scenario templates
+# Hand-shaped histories for interleavings the random streams reach only rarely.  Every template is
+# instantiated with random accounts / keys / values; they are ordinary cases for the judge.
+
+def _tx(ops, revert=False):
+    return [("snap",)] + ops + ([("revert", 0)] if revert else []) + [("finalise",)]
+
+
+def scen_delete_rewrite_revert(r):
+    """key live from an earlier block, deleted before a snapshot, rewritten after it, snapshot reverted
+    (nested or not); key in store only (reopen), in cache+store, or read first"""
+    a, k = r.randrange(3), r.choice(KEYS)
+    v0, v1, v2 = b"v0", r.choice([b"v1", b"x"]), b"v2"
+    ops = [("set", a, k, v0), ("set", a, r.choice(KEYS), b"w"), ("flush",), ("commit", 1)]
+    where = r.choice(["cache", "reopen", "evict", "read"])
+    if where == "reopen":
+        ops.append(("reopen",))
+    elif where == "evict":
+        ops += [("evict", a, 1, b""), ("evict", a, 0, b"")]
+    elif where == "read":
+        ops.append(("get", a, k))
+    delete = ("set", a, k, None)
+    ops += _tx([delete]) if r.random() < 0.7 else [delete]
+    if r.random() < 0.5:
+        ops += _tx([("set", a, k, v1)], revert=True)
+    else:   # nested: inner revert restores the outer write, outer revert must restore the deletion
+        ops += [("snap",), ("set", a, k, v1), ("snap",), ("set", a, k, v2), ("revert", 1), ("get", a, k), ("revert", 0), ("finalise",)]
+    ops += [("get", a, k), ("query", a, b""), ("flush",), ("commit", 2), ("get", a, k), ("dump",), ("reopen",), ("get", a, k), ("dbdump",)]
+    return [ops]
+
+
+def scen_blind_overwrite_cold(r):
+    """store-only key (cold cache after reopen or rollback), account already loaded in the block, blind
+    overwrite inside a snapshot that is reverted"""
+    a, k = r.randrange(3), r.choice(KEYS)
+    other = r.choice([x for x in KEYS if x != k])
+    ops = [("set", a, k, b"v0"), ("setbal", a, 5), ("flush",), ("commit", 1), ("set", a, other, b"o"), ("flush",), ("commit", 2)]
+    cold = r.choice(["reopen", "rollback"])
+    ops += [("reopen",)] if cold == "reopen" else [("rollback", 1)]
+    ops += [r.choice([("getbal", a), ("set", a, other, b"p"), ("getnonce", a)])]
+    ops += _tx([("set", a, k, b"v1")], revert=True)
+    ops += [("get", a, k), ("set", a, other, b"q"), ("flush",), ("commit", 3 if cold == "reopen" else 2), ("get", a, k), ("dump",)]
+    return [ops]
+
+
+def scen_read_between_flush_and_commit(r):
+    """block N deletes / overwrites committed keys, is flushed, block N+1 reads before Commit(N) lands"""
+    a = r.randrange(3)
+    k1, k2 = r.sample(KEYS, 2)
+    ops = [("set", a, k1, b"v0"), ("set", a, k2, b"w0"), ("setbal", a, 3), ("flush",), ("commit", 1)]
+    if r.random() < 0.5:
+        ops.append(("reopen",))
+    ops += [("set", a, k1, None), ("set", a, k2, b"w1"), ("setbal", a, 4), ("flush",),
+            ("get", a, k1), ("get", a, k2), ("query", a, b""), ("getbal", a),
+            ("commit", 2), ("get", a, k1), ("get", a, k2), ("query", a, b""), ("dump",)]
+    return [ops]
+
+
+def scen_code_rollback_continuation(r):
+    """the rolled-back block replaced the code of an existing contract; a different continuation touches the
+    account without changing its code; the code is read one block later"""
+    a = r.randrange(3)
+    ops = [("setcode", a, b"c1"), ("setbal", a, 1), ("flush",), ("commit", 1), ("dump",),
+           ("setcode", a, b"c2"), ("set", a, b"a", b"v"), ("flush",), ("commit", 2), ("dump",),
+           ("rollback", 1), ("dump",),
+           r.choice([("setbal", a, 9), ("setnonce", a, 2)]), ("flush",), ("commit", 2),
+           ("getcode", a), ("dump",), ("set", a, b"b", b"z"), ("flush",), ("commit", 3), ("getcode", a), ("dbdump",),
+           ("rollback", 2), ("getcode", a), ("dump",)]
+    return [ops]
+
+
+def scen_window_floor(r):
+    """more than 11 blocks, rollback to exactly the oldest retained height, then re-execution"""
+    n = r.randrange(12, 16)
+    ops = []
+    blocks = {}
+    for h in range(1, n + 1):
+        b = [("set", r.randrange(3), r.choice(KEYS), b"h%d" % h), ("setbal", h % 3, h)]
+        blocks[h] = b
+        ops += b + [("flush",), ("commit", h)]
+    floor = n - 10
+    ops += [("rollback", floor - 1), ("dump",), ("rollback", floor), ("dump",), ("dbdump",), ("version",)]
+    ops += blocks[floor + 1] + [("flush",), ("commit", floor + 1), ("dump",)]
+    return [ops]
+
+
+def scen_reverted_setcode_root(r):
+    """a reverted code write (failed deployment / upgrade) must not leave its code hash behind"""
+    a = r.randrange(3)
+    base = [("setbal", a, 2)] + ([("setcode", a, b"c1")] if r.random() < 0.6 else []) + [("flush",), ("commit", 1)]
+    tail = [("set", a, r.choice(KEYS), b"v"), ("flush",), ("commit", 2), ("dbdump",), ("getcode", a),
+            ("set", a, b"b", b"w"), ("flush",), ("commit", 3), ("dbdump",)]
+    seg = _tx([("setcode", a, b"c2")], revert=True)
+    return [base + seg + tail, base + tail]
+
+
+SCENARIOS = [scen_delete_rewrite_revert, scen_blind_overwrite_cold, scen_read_between_flush_and_commit,
+             scen_code_rollback_continuation, scen_window_floor, scen_reverted_setcode_root]
+
+
+def scenario_groups(r, per=6):
+    out = []
+    for f in SCENARIOS:
+        for _ in range(per):
+            out.append(f(r))
     return out
